@@ -4,6 +4,9 @@ import (
 	"fmt"
 	"os"
 	"reflect"
+	"runtime"
+	"strconv"
+	"strings"
 	"sync"
 	"time"
 
@@ -61,6 +64,7 @@ type Parked struct {
 	ID      int
 	Point   string
 	Args    []interface{}
+	GID     int64 // goroutine that is parked
 	release chan struct{}
 	done    bool
 }
@@ -96,6 +100,18 @@ func objOf(args []interface{}) interface{} {
 	return args[0]
 }
 
+// GoID returns the id of the calling goroutine (parsed from its stack header).
+func GoID() int64 {
+	var buf [64]byte
+	n := runtime.Stack(buf[:], false)
+	f := strings.Fields(string(buf[:n]))
+	if len(f) < 2 {
+		return 0
+	}
+	id, _ := strconv.ParseInt(f[1], 10, 64)
+	return id
+}
+
 var hubDebug = os.Getenv("VH_DEBUG") == "2"
 
 func (h *Hub) at(point string, args ...interface{}) {
@@ -116,7 +132,7 @@ func (h *Hub) at(point string, args ...interface{}) {
 	var p *Parked
 	if match, ok := h.parkAt[point]; ok && !h.closed && (match == nil || match(args)) {
 		h.nextPID++
-		p = &Parked{ID: h.nextPID, Point: point, Args: args, release: make(chan struct{})}
+		p = &Parked{ID: h.nextPID, Point: point, Args: args, release: make(chan struct{}), GID: GoID()}
 		h.parked = append(h.parked, p)
 	}
 	h.cond.Broadcast()
